@@ -6,3 +6,5 @@ export CARGO_NET_OFFLINE=true
 python3 tools/translate.py
 (cd lean && lake build IpcModel driver 2>&1 | tail -3)
 (cd harness && cargo build --offline --target-dir target-default 2>&1 | tail -2)
+(cd harness && cargo build --offline --target-dir target-memfd --features memfd 2>&1 | tail -1)
+(cd harness && cargo build --offline --target-dir target-force-inprocess --features force-inprocess 2>&1 | tail -1)
